@@ -76,7 +76,8 @@ def gen_cases(ctx):
     # truncations and non-JSON
     for _ in range(ctx.scale(25, 400)):
         add(rng.choice(DOCS), rng.choice(MODES), {'frac_spans': [(0.3, 2)], 'truncate': rng.random()}, 'truncate')
-    for raw in ['', 'null', '[]', '{}', '{"matches": null}', '{"matches": [null]}', '{"matches": [[]]}', 'NaN', '"x"', '{"matches": [{"offset": 1e3}]}',
+    deep = ['{"matches": [], "extra": ' + '[' * k + ']' * k + '}' for k in (2000, 100000)] + ['[' * 100000, '{"a":' * 5000]
+    for raw in deep + ['', 'null', '[]', '{}', '{"matches": null}', '{"matches": [null]}', '{"matches": [[]]}', 'NaN', '"x"', '{"matches": [{"offset": 1e3}]}',
                 '{"matches":[{"offset":0,"length":1}]}', '﻿{}', '{"matches": [{"offset": "0", "length": 1}]}']:
         for mode in MODES:
             add(rng.choice(DOCS), mode, {'raw': raw}, 'raw')
